@@ -15,7 +15,7 @@ TIME_NOTES = "simfile.notes.timed:time_notes"
 
 def c1(ctx):
     f = ctx.p.func(TIME_NOTES)
-    records.rebuild_site(ctx, f, "simfile.notes.Note", 1, "note", {"note_type": "NoteType.FAKE"}, "fake note")
+    records.rebuild_site(ctx, f, "simfile.notes.Note", 1, "@loop:note_data", {"note_type": "NoteType.FAKE"}, "fake note")
 
 
 def c2(ctx):
